@@ -211,3 +211,46 @@ func vfH_C13_upstream_reject() {
 		vfrt.Reach("upstream-reject-closed")
 	}
 }
+
+//vf:assume C13-terminate-tls: a CONNECT carrying X-Martian-Terminate-Tls: true to a directly dialled target, with crypto/tls modelled as a transparent layer (8.10, so model-only) whose client handshake towards the target succeeds or fails (the harness decides): either way the connection that was dialled is closed by the time the client connection is done, and the exchange is reported complete once
+
+//vf:harness property=C13 nopanic modelonly reach=terminate-tls-handshake-failed,terminate-tls-tunnel steps=8000000
+func vfH_C13_terminate_tls() {
+	cfg := HTTPProxyConfig{}
+	cfg.Name = "fw"
+	cfg.ProxyLocalhost = AllowProxyLocalhost
+	hp := vfNewHTTPProxy(cfg)
+	fails := vfrt.Choice("target-handshake-fails", 2) == 1
+	if fails {
+		vfrt.TLSClientHandshakeFails(1)
+	}
+	target := martian.NewVfConn([]byte("world"))
+	dials := 0
+	hp.proxy.DialContext = func(context.Context, string, string) (net.Conn, error) {
+		dials++
+		return target, nil
+	}
+	reads, wrotes := 0, 0
+	hp.proxy.Trace = &martian.ProxyTrace{
+		ReadRequest: func(info martian.ReadRequestInfo) {
+			if info.Err == nil && info.Req != nil {
+				reads++
+			}
+		},
+		WroteResponse: func(info martian.WroteResponseInfo) { wrotes++ },
+	}
+	client := martian.NewVfConn([]byte("CONNECT example.com:443 HTTP/1.1\r\nHost: example.com:443\r\nX-Martian-Terminate-Tls: true\r\n\r\nhello"))
+	martian.VfServeConn(hp.proxy, client)
+	vfrt.Assert(dials == 1, "terminate-tls/one-dial")
+	vfrt.Assert(client.Closed >= 1, "terminate-tls/client-connection-finished")
+	vfrt.Assert(target.Closed >= 1, "terminate-tls/dialled-connection-closed-whatever-the-handshake-did")
+	vfrt.Assert(reads == 1 && wrotes == 1, "terminate-tls/exchange-reported-complete-once")
+	if fails {
+		vfrt.Reach("terminate-tls-handshake-failed")
+		vfrt.Assert(target.Out.Len() == 0, "terminate-tls/nothing-sent-to-the-target-after-a-failed-handshake")
+		vfrt.Assert(bytes.HasPrefix(client.Out.Bytes(), []byte("HTTP/1.1 5")), "terminate-tls/failed-handshake-answered-5xx")
+	} else {
+		vfrt.Reach("terminate-tls-tunnel")
+		vfrt.Assert(target.Out.String() == "hello", "terminate-tls/tunnel-carries-the-client-bytes")
+	}
+}
